@@ -1,39 +1,48 @@
 import VaxisModel.Lemmas.ConcShutdown
 
-/-! F13 (recorded): `Close()` executed on the input goroutine itself (kill-signal arm of its
-`select`, or the panic path) while two sequences are waiting in the parser's channel.  The parser
-needs a free slot to deliver `EOF`, the only goroutine that could free one is waiting for the
-parser.  Replayed on the real code by the harness op `sigclose`. -/
+/-! F13 (**fixed**, /repo "fix: Suspend and Close no longer wait for a receiver of the parser's
+channel"): `Close()` executed on the input goroutine itself (kill-signal arm of its `select`, or the
+panic path) while two sequences are waiting in the parser's channel.  The parser needs a free slot to
+deliver `EOF`; the only goroutine that used to free one was the one waiting for the parser, so `Close`
+never returned.  `WaitClose` now discards what the parser still emits while it waits.  The schedule
+that used to be stuck is kept (harness ops `sigclose`, `forced kind=sig`; corpus/C10/F13-sigclose.ops);
+in the model it now continues to a final state.  The general statement — every maximal run ends with
+every caller returned, from every invariant state, kill signals and `Close` on the input goroutine
+included — is `Props.C10Shutdown.shutdown_completes`. -/
 namespace VaxisModel.Witness.F13
 open VaxisModel.Model.Conc VaxisModel.Lemmas.ConcShutdown
 
 /-- The goroutine is busy with a first key (one post to go) while two more keys arrive. -/
 def s0 : SSys := { inbuf := [some 1, some 1], ipc := .posting 1 }
 
+/-- The schedule of the old witness. -/
 def witness : List SLabel :=
   [.parser, .parser, .parser, .parser, .parser,    -- both keys parsed and queued in the channel (capacity 2)
    .signal,                                        -- SIGTERM
-   .inputStep, .inputStep,                         -- the goroutine finishes its post and is back at the select
-   .inputKill,                                     -- … which picks the signal arm
-   .inputStep, .inputStep, .inputStep, .inputStep, .inputStep,   -- Close on this goroutine: flag, quit event, suspended, signal, DA1; now WaitClose
+   .input .step, .input .step,                     -- the goroutine finishes its post and is back at the select
+   .input .kill,                                   -- … which picks the signal arm: Close on this goroutine (caller 0)
+   .caller 0, .caller 0, .caller 0, .caller 0, .caller 0,   -- flag, quit event, suspended, signal, DA1; now WaitClose
    .termReply, .parser]                            -- the parser (at its select) takes the close signal
 
-theorem reaches_stuck_state :
+/-- How it goes on now: `WaitClose` makes room, the parser delivers `EOF` and stops. -/
+def continuation : List SLabel :=
+  [.drain 0, .parser,                              -- a sequence discarded, EOF emitted
+   .drain 0, .parser,                              -- channel closed, `closed` token sent
+   .drain 0,                                       -- (the EOF is discarded too; taking `closed` first is equally possible)
+   .caller 0, .caller 0]                           -- WaitClose returns; rest of Suspend, close(chQuit)
+
+/-- The old witness still leads to the state that used to be stuck: the input goroutine's `Close`
+waits in `WaitClose`, the parser wants to emit `EOF`, the channel is full, nobody else receives. -/
+theorem reaches_old_stuck_state :
     (match srun s0 witness with
-     | some s => s.stuck && !s.final && s.ipc == .closing .waitClosed && s.ppc == .emitEOF && s.seqs.length == 2
+     | some s => s.callers == [{ pc := .waitClosed }] && s.ipc == .done && s.ppc == .emitEOF && s.seqs.length == 2 &&
+                 (snext s (.drain 0)).isSome
      | none => false) = true := by decide
 
-theorem close_never_returns :
-    ∃ s, srun s0 witness = some s ∧ s.final = false ∧
-      ∀ l ls, l.internal = true → srun s (l :: ls) = none := by
-  cases h : srun s0 witness with
-  | none => exact absurd h (by decide)
-  | some s =>
-    have hs : s.stuck = true ∧ s.final = false := by
-      have := reaches_stuck_state
-      simp only [h] at this
-      simp only [Bool.and_eq_true, Bool.not_eq_true'] at this
-      exact ⟨this.1.1.1.1, this.1.1.1.2⟩
-    exact ⟨s, rfl, hs.2, fun l ls hl => stuck_forever s hs.1 l ls hl⟩
+/-- … and from there `Close` returns: final state, `chQuit` closed once. -/
+theorem close_returns :
+    (match srun s0 (witness ++ continuation) with
+     | some s => s.final && s.quitCloses == 1 && !s.panicked
+     | none => false) = true := by decide
 
 end VaxisModel.Witness.F13
